@@ -202,6 +202,9 @@ func (w *c13World) Finish(x *h.Exec) *h.Finding {
 	h.Wait()
 	c := w.c
 	desc := fmt.Sprintf("rcpts=%s calls=%s before=%d ret=%s transfer=%s plain=%t schedule=%v", c.Rcpts, c.Calls, c.Before, c.Ret, c.Transfer, c.Plain, x.Schedule)
+	if a := w.be.FirstAnomaly(); a != "" {
+		return h.F("c13-backend-anomaly", "%s: %s", desc, a)
+	}
 	rs, err := ref.ParseReplies(w.wire)
 	if err != nil {
 		return h.F("c13-bad-wire", "%s: %v", desc, err)
